@@ -61,7 +61,7 @@ def configs(tier, seed):
 def bounds(tier):
     return {"connections": 2, "tls": "abbreviated TLS 1.2 handshake + 1 application record per connection, several records per segment (4-5 segments each)",
             "quic": "handshake + 1 one-RTT datagram from the server per connection (6 datagrams each), in the -client-data configurations a client datagram before it; connection-id lengths (client, server) in {(4,8),(0,8),(0,0)}",
-            "interleavings": "all order-preserving merges (solver-chosen)", "key log": "either order of the two connections' entries",
+            "interleavings": "all order-preserving merges (solver-chosen)", "key log": "the two connections' entries in either order or alternating line by line",
             "endpoints": "every aliasing pattern: second connection's client ip / server ip / client port equal to or different from the first one's (incl. its client being the first one's server host), server ports from {443, 44330}"}
 
 
@@ -121,6 +121,18 @@ def _conn(kind, tag, cfg, src):
         frames.append((F.ethernet(d_[2], s_[2], ep.ipv == 6, F.ip_header(ep.ipv == 6, s_[0], d_[0], 17, len(sg)) + sg), 0, d.from_server))
     meta["dgrams"] = dgrams
     return frames, keylog, meta, ep, "udp"
+
+
+def _keylog_order(order, ka, kb):
+    """The two connections' key-log lines: one after the other, or line by line alternately (concurrent handshakes)"""
+    if order == "ab":
+        return ka + kb
+    if order == "ba":
+        return kb + ka
+    out = []
+    for i in range(max(len(ka), len(kb))):
+        out += ka[i:i + 1] + kb[i:i + 1]
+    return out
 
 
 def _feed(mods, tagged, keylog_objs):
@@ -226,8 +238,8 @@ def run_config(cfg):
             else:
                 merged.append(("B", B["frames"][ib][0], float(step)))
                 ib += 1
-        kl_order = sym_choice("keylog_order", ["ab", "ba"])
-        kl = (A["keylog"] + B["keylog"]) if kl_order == "ab" else (B["keylog"] + A["keylog"])
+        kl_order = sym_choice("keylog_order", ["ab", "ba", "interleaved"])
+        kl = _keylog_order(kl_order, A["keylog"], B["keylog"])
         try:
             both, sessions = _export_tagged(mods, merged, P.keylog_objects(mods, kl), want_sessions=True)
             # routing
@@ -360,7 +372,7 @@ def replay(cfg, viol):
         else:
             merged.append(("B", B["pk"][ib], step * 1000000))
             ib += 1
-    kl = (A["keylog"] + B["keylog"]) if ["ab", "ba"][inp.get("keylog_order", 0)] == "ab" else (B["keylog"] + A["keylog"])
+    kl = _keylog_order(["ab", "ba", "interleaved"][inp.get("keylog_order", 0)], A["keylog"], B["keylog"])
 
     def export(pkts, keylog):
         r = e2e.run_tlexport([(fr, t) for _, fr, t in pkts], e2e.keylog_text(keylog))
